@@ -831,7 +831,7 @@ def run_plan(ctx):
     plan.append(dict(name="tbi-dry-run", kind="tbi", param=tbi_param(dict(diffuse=True)), threads=1, stages=[(["--task-based", "--dry-run"], [])], san_quick=False))
     # recorded finding: a `type: Multi` tracker followed by another tracker in the same cell
     c = dict(trackers=True, same_cell=True, copy_level=0)
-    plan.append(dict(name="tbi-multi-tracker-shares-cell", kind="finding", param=tbi_param(c), threads=1, aux={"trackers.yml": tbi_tracker_yaml("MS", c)},
+    plan.append(dict(name="tbi-multi-tracker-shares-cell", kind="tbi", param=tbi_param(c), threads=1, aux={"trackers.yml": tbi_tracker_yaml("MS", c)},
                      stages=[(["--task-based"], [r"snap\d+\.txt"])], key="run:tracker-multi-shares-cell-double-delete", san_quick=False))
     return plan
 
